@@ -127,6 +127,11 @@ def _recipes(e):
                 return sp.Integer(1)
             if fname in ("np.ones",) and len(args) == 1 and _is_len(args[0]):
                 return sp.Integer(1)
+            if fname == "slice" and len(args) == 4 and _fn(args[0], "np.insert") and len(args[0].args) == 3 \
+                    and args[0].args[1] == 0 and not _fn(args[0].args[0], "np.cumsum") \
+                    and (args[1] == 0 or sp.sstr(args[1]) == "None") and args[2] == -1 and sp.sstr(args[3]) == "None":
+                # shift by one: first entry is the inserted constant, entry j is a[j-1]
+                return sp.Function("SHIFT")(args[0].args[0], args[0].args[2])
             if fname == "slice" and len(args) == 4:
                 b, lo, hi, st = args
                 if _fn(b, "np.insert") and len(b.args) == 3 and b.args[1] == 0 and b.args[2] == 0 \
@@ -171,6 +176,7 @@ class Anatomy:
     overall: object = None  # Val
     history: object = None  # Val
     stores: list = field(default_factory=list)  # (stmt, target_name, index_node, value_node)
+    assign_lines: dict = field(default_factory=dict)
     stat_names: set = field(default_factory=set)
 
 
@@ -224,6 +230,15 @@ def anatomy(idx, name) -> Anatomy:
                 raise AnalysisError(f"{name}: conditional return outside the modelled dialect")
             continue
         raise AnalysisError(f"{name}: statement {type(st).__name__} at line {st.lineno} outside the dialect")
+    # def-use bookkeeping for "computed from the final statistic" (C11.R3)
+    an.assign_lines = {}
+    for st in flatten(fd.body):
+        if isinstance(st, ast.Assign):
+            for t in st.targets:
+                for nm in ast.walk(t):
+                    if isinstance(nm, ast.Name) and isinstance(nm.ctx, ast.Store):
+                        loaded = {q.id for q in ast.walk(st.value) if isinstance(q, ast.Name)}
+                        an.assign_lines.setdefault(nm.id, []).append((st.lineno, loaded))
     if an.ret is None or not isinstance(an.ret.value, ast.Tuple) or len(an.ret.value.elts) != 2:
         raise AnalysisError(f"{name}: expected `return p, p_history`")
     an.overall = map_leaves(tx.expr(an.ret.value.elts[0]), _recipes)
@@ -256,3 +271,71 @@ def history_shape(h):
             return "inv", other.base
         return "dir", other
     return None, None
+
+
+def method_term(idx, name, extra_inline=None):
+    """Translate a straight-line NonnegMean method (estimator / bet / helper):
+    returns (tx, returned Val, stores).  Warn-only / raise-only `if`s are skipped."""
+    fd = idx.func(REL, f"{CLS}.{name}")
+    tx = make_tx(idx)
+    wf = idx.module(REL).defs.get("welford_mean_var")
+    if extra_inline:
+        tx.inline.update(extra_inline)
+    stores = []
+    ret = None
+    for st in flatten(fd.body):
+        if isinstance(st, (ast.Expr, ast.Assert)):
+            continue
+        if isinstance(st, ast.Return):
+            ret = tx.expr(st.value)
+            break
+        if isinstance(st, ast.Assign):
+            tgt = st.targets[0]
+            if isinstance(tgt, ast.Subscript):
+                stores.append((st, norm(tgt.value), tgt.slice, st.value))
+                continue
+            v = tx.expr(st.value)
+            for t in st.targets:
+                tx._assign(t, v)
+            continue
+        if isinstance(st, ast.If):
+            simple = all(
+                isinstance(x, ast.Raise) or (isinstance(x, ast.Expr) and isinstance(x.value, ast.Call)
+                                             and norm(x.value.func) in ("warnings.warn", "warn", "print"))
+                for x in st.body) and not st.orelse
+            if simple:
+                # evaluate the test for its walrus bindings only
+                try:
+                    tx.cond(st.test)
+                except symx.Unsupported:
+                    pass
+                continue
+            r = tx.block([st])
+            if r is not None:
+                raise AnalysisError(f"{name}: conditional return outside the modelled dialect")
+            continue
+        raise AnalysisError(f"{name}: statement {type(st).__name__} at line {st.lineno} outside the dialect")
+    if ret is None:
+        raise AnalysisError(f"{name}: no return")
+    return tx, ret, stores, fd
+
+
+def stale_statistic_uses(an: Anatomy, expr):
+    """Lines at which a value flowing into `expr` was computed from the statistic
+    *before* the last in-place store to it (such a value ignores the overrides)."""
+    if not an.stores:
+        return []
+    stat_names = {t for _, t, _, _ in an.stores}
+    last_store = max(st.lineno for st, *_ in an.stores)
+    bad, seen = [], set()
+    work = [q.id for q in ast.walk(expr) if isinstance(q, ast.Name)]
+    while work:
+        nm = work.pop()
+        if nm in seen or nm in stat_names:
+            continue
+        seen.add(nm)
+        for line, loaded in an.assign_lines.get(nm, []):
+            if loaded & stat_names and line < last_store:
+                bad.append(line)
+            work.extend(loaded)
+    return sorted(set(bad))
